@@ -413,6 +413,24 @@ def oracle_case(rep, rng, subseed, maxdim, maxwires, cap, snake_cap):
               lambda: same_tensor((f >> f2) @ (g >> g2), (f @ g) >> (f2 @ g2)))
     law.check("interchange_law", lambda: is_tensor(
         (f @ g) >> (f2 @ g2), a + d, c + k, np.kron(mf @ mf2, mg @ mg2)))
+    # the same block permutation when the swap is a box of a rigid diagram and the tensor functor
+    # sends its two wires to types with DIFFERENT numbers of wires (none for Dim(1), several), with
+    # boxes before and after it (tensor.Functor's swap branch moves axes, it does not call Tensor.swap)
+    def functor_swap():
+        from discopy import rigid, tensor
+        x, y, x2, y2 = rigid.Ty("x"), rigid.Ty("y"), rigid.Ty("x2"), rigid.Ty("y2")
+        fb, gb = rigid.Box("f", x, x2), rigid.Box("g", y, y2)
+        F = tensor.Functor({x: D(a), y: D(d), x2: D(b), y2: D(e)}, {fb: f.array, gb: g.array})
+        rep.count("oracle.functor_swap:wires_%d_vs_%d" % (min(len(eff(b)), 3), min(len(eff(e)), 3)))
+        return (is_tensor(F(rigid.Diagram.swap(x, y)), a + d, d + a, tl.perm_matrix_swap(a, d))
+                or is_tensor(F(fb @ gb >> rigid.Diagram.swap(x2, y2)), a + d, e + b,
+                             np.kron(mf, mg) @ tl.perm_matrix_swap(b, e))
+                or is_tensor(F(rigid.Diagram.swap(x, y) >> gb @ fb), a + d, e + b,
+                             tl.perm_matrix_swap(a, d) @ np.kron(mg, mf))
+                or is_tensor(F(rigid.Diagram.swap(x, y) >> rigid.Id(y) @ fb), a + d, d + b,
+                             tl.perm_matrix_swap(a, d) @ np.kron(np.eye(size(d)), mf)))
+    if size(a) * size(d) * size(b) * size(e) <= 4096:
+        law.check("swap_is_block_permutation:tensor_functor", functor_swap)
     law.check("swap_natural", lambda: same_tensor(
         (f @ g) >> Tensor.swap(f.cod, g.cod), Tensor.swap(f.dom, g.dom) >> (g @ f)))
     law.check("swap_natural_three", lambda: same_tensor(
@@ -426,6 +444,65 @@ def oracle_case(rep, rng, subseed, maxdim, maxwires, cap, snake_cap):
     law.check("dagger_tensor",
               lambda: same_tensor((f @ g).dagger(), f.dagger() @ g.dagger()))
     law.check("dagger_involutive", lambda: same_tensor(f.dagger().dagger(), f))
+    # ELEMENT TYPES (round 8): the same laws on arrays whose entries are Python / sympy OBJECTS
+    # (object dtype: numpy.iscomplexobj is False there, conjugation goes through each entry's own
+    # .conjugate()), on small integer and float dtypes, and on complex64
+    style = rng.choice(["object:python", "object:sympy", "object:fraction_complex", "int32", "float32",
+                        "complex64", "object:python_in_list"])
+    rep.count("oracle.element_type:" + style)
+
+    def typed_t(dom, cod, m):
+        flat = [complex(z) for z in m.reshape(-1)]
+        py = [int(z.real) if z.imag == 0 else complex(z) for z in flat]
+        if style == "object:python":
+            arr = np.empty(len(py), dtype=object)
+            arr[:] = py
+        elif style == "object:python_in_list":
+            arr = list(py)
+        elif style == "object:sympy":
+            import sympy
+            arr = np.empty(len(py), dtype=object)
+            arr[:] = [sympy.Integer(int(z.real)) + sympy.I * sympy.Integer(int(z.imag)) for z in flat]
+        elif style == "object:fraction_complex":
+            from fractions import Fraction
+            arr = np.empty(len(py), dtype=object)
+            arr[:] = [Fraction(int(z.real)) if z.imag == 0 else complex(z) for z in flat]
+        elif style in ("int32", "float32"):
+            arr = np.array([z.real for z in flat]).astype(style)
+            m = np.array([z.real for z in flat], dtype=complex).reshape(m.shape)
+        else:
+            arr = np.array(flat).astype(style)
+        return Tensor(D(dom), D(cod), arr), m
+
+    def as_matrix(t, dom, cod):
+        a_ = np.asarray(t.array)
+        if tuple(a_.shape) != (tuple(eff(dom) + eff(cod)) or (1,)):
+            return None
+        def num(z):                     # sympy keeps products unexpanded: expand before reading it
+            return complex(z.expand()) if hasattr(z, "expand") else complex(z)
+        return np.array([num(z) for z in a_.reshape(-1)], dtype=complex).reshape(size(dom), size(cod))
+
+    def typed_is(t, dom, cod, want):
+        if tl.dims_of(t.dom) != eff(dom) or tl.dims_of(t.cod) != eff(cod):
+            return "dom/cod %r -> %r, expected %r -> %r" % (t.dom, t.cod, eff(dom), eff(cod))
+        got = as_matrix(t, dom, cod)
+        if got is None:
+            return "array.shape %r" % (np.asarray(t.array).shape,)
+        if not np.array_equal(got, want):
+            bad = np.argwhere(got != want)
+            return "element type %s: matrix differs at %d of %d entries, first at %r: got %r, expected %r" % (
+                style, len(bad), got.size, tuple(bad[0]), got[tuple(bad[0])], want[tuple(bad[0])])
+        return None
+    if size(a) * size(b) and size(b) * size(c):
+        (tf, tmf), (tf2, tmf2) = typed_t(a, b, mf), typed_t(b, c, mf2)
+        law.check("element_type:dagger_is_conj_transpose", lambda: typed_is(tf.dagger(), b, a, tmf.conj().T))
+        law.check("element_type:dagger_is_conj_transpose:slice", lambda: typed_is(tf[::-1], b, a, tmf.conj().T))
+        law.check("element_type:then_is_matmul", lambda: typed_is(tf >> tf2, a, c, tmf @ tmf2))
+        law.check("element_type:then_dagger", lambda: typed_is(tf >> tf.dagger(), a, a, tmf @ tmf.conj().T))
+        law.check("element_type:conjugate", lambda: typed_is(tf.conjugate(), a, b, np.conj(tmf)))
+        if size(a) * size(b) * size(d) * size(e) <= 4096:
+            tg, tmg = typed_t(d, e, mg)
+            law.check("element_type:tensor_is_kron", lambda: typed_is(tf @ tg, a + d, b + e, np.kron(tmf, tmg)))
     law.check("unit_laws", lambda: same_tensor(Tensor.id(f.dom) >> f, f)
               or same_tensor(f >> Tensor.id(f.cod), f)
               or same_tensor(Tensor.id(D([])) @ f, f) or same_tensor(f @ Tensor.id(D([1])), f))
